@@ -161,7 +161,15 @@ def build(case):
         'spec': (plan.ident, ks_id(plan.keyspace)) if isinstance(plan, Plan) else None,
         'msg': type(m).__name__,
     }
-    out['wire'] = wire_fields(m, case['pv'])
+    for k in ('cl', 'serial', 'fetch', 'ts'):
+        if out[k] is not None and not isinstance(out[k], int):
+            out[k] = -777          # not a value at all (e.g. the FETCH_SIZE_UNSET sentinel leaked into the message)
+    if out['timeout'] is not None and not isinstance(out['timeout'], (int, float)):
+        out['timeout'] = -777.0
+    try:
+        out['wire'] = wire_fields(m, case['pv'])
+    except Exception as e:  # noqa
+        out['wire'] = {'error': type(e).__name__}
     return out
 
 
